@@ -126,12 +126,18 @@ pub fn from_string_inner(ast: &DeriveInput) -> syn::Result<TokenStream> {
                     // Store the lowercase and UPPERCASE variants in the phf map to capture
                     let ser_string = serialization.value();
 
-                    let lower =
-                        syn::LitStr::new(&ser_string.to_ascii_lowercase(), serialization.span());
-                    let upper =
-                        syn::LitStr::new(&ser_string.to_ascii_uppercase(), serialization.span());
-                    phf_exact_match_arms.push(quote! { #lower => #name::#ident #params, });
-                    phf_exact_match_arms.push(quote! { #upper => #name::#ident #params, });
+                    // phf rejects duplicate keys, so only add the case variants that differ
+                    // from the serialization itself (and from each other).
+                    let lower_string = ser_string.to_ascii_lowercase();
+                    let upper_string = ser_string.to_ascii_uppercase();
+                    if lower_string != ser_string {
+                        let lower = syn::LitStr::new(&lower_string, serialization.span());
+                        phf_exact_match_arms.push(quote! { #lower => #name::#ident #params, });
+                    }
+                    if upper_string != ser_string && upper_string != lower_string {
+                        let upper = syn::LitStr::new(&upper_string, serialization.span());
+                        phf_exact_match_arms.push(quote! { #upper => #name::#ident #params, });
+                    }
                     standard_match_arms.push(quote! { s if s.eq_ignore_ascii_case(#serialization) => #name::#ident #params, });
                 }
             } else {
